@@ -1,6 +1,7 @@
 import UpfVerif.Driver.Util
 import UpfVerif.Model.Flags
 import UpfVerif.Model.Buf
+import UpfVerif.Model.Krep
 /- driver for the kernel usage-report stream (C10 / C11 on the REPORT multicast path): sessions with their URRs and UR-SEQN
    counters; one REPORT message → one Session Report Request per live session with its own reports, in message order -/
 namespace UpfVerif.Driver.KrepD
@@ -24,19 +25,20 @@ def sortStr (l : List String) : List String := (l.toArray.qsort (· < ·)).toLis
 /-- `ServeMsg` REPORT branch + `ServeReport` + `serveUSAReport`: group by SEID; per live session one request; reports of
     URRs the session does not have are left out; each emitted report takes the URR's counter -/
 def report (st : KSt) (items : List (Nat × Nat × Nat × Nat)) : KSt × List String :=
-  let seids := (items.map (·.1)).eraseDups
-  seids.foldl (fun (acc : KSt × List String) up =>
+  -- M-Krep (Model/Krep.lean): one notification per SEID with that session's reports in message order; the C10 grouping
+  -- theorems (Props/C10.groups_*) are about exactly this function
+  (Krep.groups items).foldl (fun (acc : KSt × List String) (g : Nat × List (Nat × Nat × Nat)) =>
+    let up := g.1
     match Buf.alGet acc.1.sess up with
     | none => acc
     | some s =>
-      let mine := items.filter (·.1 == up)
-      let (s', ies) := mine.foldl (fun (a : KSess × List String) it =>
-        match Buf.alGet a.1.urrs it.2.1 with
+      let (s', ies) := g.2.foldl (fun (a : KSess × List String) it =>
+        match Buf.alGet a.1.urrs it.1 with
         | none => a
         | some n =>
-          let trig := trigIE (setReportingTrigger 0#32 (BitVec.ofNat 32 it.2.2.2))
-          ({ a.1 with urrs := Buf.alSet a.1.urrs it.2.1 (n + 1) },
-           a.2 ++ [s!"{it.2.1}.{n}.{it.2.2.1}.{Bytes.toHex trig}"])) (s, [])
+          let trig := trigIE (setReportingTrigger 0#32 (BitVec.ofNat 32 it.2.2))
+          ({ a.1 with urrs := Buf.alSet a.1.urrs it.1 (n + 1) },
+           a.2 ++ [s!"{it.1}.{n}.{it.2.1}.{Bytes.toHex trig}"])) (s, [])
       ({ acc.1 with sess := Buf.alSet acc.1.sess up s' },
        acc.2 ++ [natHex s.cp ++ "/" ++ (if ies.isEmpty then "-" else String.intercalate "+" ies)])) (st, [])
 
